@@ -4,6 +4,7 @@
 From Coq Require Import List ZArith Bool Arith.
 From Coq Require Import QArith.
 From MM Require Import Base.Num Model.Heap Proofs.Heap Proofs.HeapRefine Model.HeapRoutines Proofs.HeapRoutines.
+From MM Require Import Check.C20 Proofs.CheckBase Proofs.CheckC20.
 From MM Require Model.Sample Model.Quantile Model.Utest Model.QuantileCI Model.Fit Model.Graph Model.Kde
   Model.Stream Model.Marks Model.Order Model.Scale Model.Ticks.
 Local Open Scope nat_scope.
@@ -270,4 +271,120 @@ Example C20_example :
 Proof.
   cbn. repeat split; try reflexivity.
   intros v l. destruct v as [|[|v]]; cbn; intros H; inversion H; auto.
+Qed.
+
+(* ====================================================================================== *)
+(* WHAT A PASSING VERDICT OF THE CORRESPONDENCE COMPARATOR MEANS (Proofs/CheckC20.v)       *)
+(* ====================================================================================== *)
+(* If check_C20 accepts a case line (code 0 or 1) then the line was decoded COMPLETELY:
+     line = 20 :: routine id :: nargs :: mutated[nargs] ++ [det; conc; panics; call; seed; size]
+   with every flag exactly 0 or 1, and EITHER it is a line of one of the harness's canaries
+   (ids 40..45) which is flagged exactly as [canary_expect] demands, OR
+   - the routine id is in the table of Model/Heap.v and is not a canary id,
+   - there is one flag per array argument of the routine,
+   - every argument whose flag is set lies in the footprint that the PROVED effect analysis
+     assigns to the routine's array program (C20_routine_footprints / C20_inplace_footprint),
+     hence for a read-only routine NO flag is set (C20_readonly_frame),
+   - det = conc = 1 and no library call of the case panicked,
+   - for an in-place routine at least one flag is set.
+   TRUSTED BASE of the C20 verdict - the comparator sees flags only, their meaning is established
+   by the Go harness (harness/c20.go, c20reflect.go, c20canary.go) and is NOT proved:
+     flag i set  <=>  the whole backing array of argument i (the window handed to the library,
+                      its spare capacity and the sentinel guard cells on both sides, plus the
+                      length) differs bitwise between the snapshot taken BEFORE the call and
+                      the one taken AFTER it (receivers and struct arguments: deep walk of every
+                      field, unexported ones included);
+     det = 1     <=>  the canonical result (every float as its bit pattern, closures evaluated,
+                      errors and panics included) is bit-identical (a) on rebuilt equal arguments
+                      after 4 unrelated calls, (b) when the SAME arrays have been overwritten in
+                      place with other contents, compared with never-seen arrays holding those
+                      contents and with a fresh process, and after restoring, (c) in a fresh
+                      process that has made no other call;
+     conc = 1    <=>  the results of 16 goroutines calling on the shared inputs (GOMAXPROCS
+                      1/4/16, barrier/staggered/pipelined start) equal the sequential result and
+                      the shared arrays the sequential call left alone are untouched; the race
+                      detector's report of the -race twin is judged by bin/plugins/C20.py
+                      (any report outside the canary, a crash, a time-out or a missing line is a
+                      violation or a machinery failure, never a pass);
+     panics      =    the number of library calls of the first sequential call that panicked.
+   The canaries make this trust checkable on every run: functions defined IN THE HARNESS that
+   modify an argument inside its window and in its spare capacity, depend on the call count, on
+   a cache keyed by a slice address, on the process history, on another call being in flight,
+   and race on a global, must come out flagged - each in the single stage built to see it. *)
+Theorem C20_check_ok_sound : forall line c tag pos diag,
+  check_C20 line = verdict c tag pos diag -> (c = 0 \/ c = 1)%Z ->
+  exists rid mut det conc pan idx seed size,
+    line = (20 :: rid :: Z.of_nat (length mut) :: map b2z mut ++ [b2z det; b2z conc; pan; idx; seed; size])%Z /\
+    (canary_ok rid mut det conc pan \/ routine_ok rid mut det conc pan).
+Proof. exact check_ok_sound. Qed.
+Print Assumptions C20_check_ok_sound.
+
+(* ... spelled out ([routine_ok] and [canary_ok] unfolded) *)
+Theorem C20_routine_ok_spec : forall rid mut det conc pan, routine_ok rid mut det conc pan <->
+  canary_expect rid = None /\
+  exists r, find_routine rid = Some r /\ length mut = r_nargs r /\
+    (forall i, nth_error mut i = Some true -> In i (written_args (r_prog r) [])) /\
+    (readonly (r_prog r) = true -> forall i, nth_error mut i <> Some true) /\
+    det = true /\ conc = true /\ pan = 0%Z /\
+    (readonly (r_prog r) = false -> exists i, nth_error mut i = Some true).
+Proof. exact (fun rid mut det conc pan => conj (fun H => H) (fun H => H)). Qed.
+Print Assumptions C20_routine_ok_spec.
+
+(* COMPOSED READING, observation side: accepted + the trusted meaning of the flags
+   ([changed i] = "the backing array of argument i differs before/after") => on THIS call, every
+   modified argument lies in the proved footprint of the routine, a read-only routine modified
+   none of its arguments, an in-place routine modified one, the result was reproduced bit for
+   bit along the histories and schedules run, and nothing panicked. *)
+Theorem C20_accepted_reading : forall rid mut det conc pan, routine_ok rid mut det conc pan ->
+  forall changed : nat -> Prop,
+  (forall i b, nth_error mut i = Some b -> (b = true <-> changed i)) ->
+  exists r, find_routine rid = Some r /\
+    (forall i, i < r_nargs r -> changed i -> In i (written_args (r_prog r) [])) /\
+    (readonly (r_prog r) = true -> forall i, i < r_nargs r -> ~ changed i) /\
+    (readonly (r_prog r) = false -> exists i, i < r_nargs r /\ changed i) /\
+    det = true /\ conc = true /\ pan = 0%Z.
+Proof. exact accepted_reading. Qed.
+Print Assumptions C20_accepted_reading.
+
+(* COMPOSED READING, model side: IF the Go routine behaves on this call like its array program
+   (arguments bound to pairwise distinct arrays of some store) THEN the model predicts what the
+   accepted flags report - every argument array outside the footprint is bit for bit what it
+   was - and, beyond the calls that were run, C20_deterministic (ANY history) and
+   C20_schedule_independent (ANY schedule, any number of threads) apply to it.  The premise is
+   established by sampling only; an accepted line is an observation that does not contradict it. *)
+Theorem C20_model_outside_footprint_unchanged : forall (A : Type) (p : list (cmd A)) e (s : store A), env_ok e s ->
+  (forall v w l, lookup e v = Some l -> lookup e w = Some l -> v = w) ->
+  forall i l, ~ In i (written_args p []) -> lookup e i = Some l ->
+  nth l (snd (exec p (e, s))) [] = nth l s [].
+Proof. exact model_outside_footprint_unchanged. Qed.
+Print Assumptions C20_model_outside_footprint_unchanged.
+
+(* Non-vacuity: concrete lines.  Accepted: MannWhitneyUTest (routine 1, two arrays) with no flag,
+   Sample.Sort (routine 20) with both arrays changed, the API-scan case, the impure canary flagged
+   [1 1 0], the history canary with det = 0.  Rejected: routine 1 with its first argument modified
+   (position 0), Sample.Sort that changed nothing (3), det = 0 (1), conc = 0 (2), a panic (5), a
+   canary that is NOT flagged (6); a flag that is neither 0 nor 1 is malformed. *)
+Example C20_check_example :
+  check_C20 [20; 1; 2; 0; 0; 1; 1; 0; 0; 77; 9]%Z = verdict V_OK 1 (-1) [0]%Z /\
+  check_C20 [20; 20; 2; 1; 1; 1; 1; 0; 5; 77; 9]%Z = verdict V_OK 2 (-1) [5]%Z /\
+  check_C20 [20; 30; 0; 1; 1; 0; 103; 0; 0]%Z = verdict V_OK 4 (-1) [103]%Z /\
+  check_C20 [20; 40; 3; 1; 1; 0; 1; 1; 0; 70; 77; 9]%Z = verdict V_OK 8 (-1) [70]%Z /\
+  check_C20 [20; 41; 1; 0; 0; 1; 0; 71; 77; 9]%Z = verdict V_OK 8 (-1) [71]%Z /\
+  check_C20 [20; 1; 2; 1; 0; 1; 1; 0; 0; 77; 9]%Z = verdict V_MISMATCH 1 0 [0; 0]%Z /\
+  check_C20 [20; 20; 2; 0; 0; 1; 1; 0; 5; 77; 9]%Z = verdict V_MISMATCH 2 3 [5]%Z /\
+  check_C20 [20; 1; 2; 0; 0; 0; 1; 0; 0; 77; 9]%Z = verdict V_MISMATCH 1 1 [0]%Z /\
+  check_C20 [20; 1; 2; 0; 0; 1; 0; 0; 0; 77; 9]%Z = verdict V_MISMATCH 1 2 [0]%Z /\
+  check_C20 [20; 1; 2; 0; 0; 1; 1; 2; 0; 77; 9]%Z = verdict V_MISMATCH 1 5 [0; 2]%Z /\
+  check_C20 [20; 40; 3; 1; 0; 0; 1; 1; 0; 70; 77; 9]%Z = verdict V_MISMATCH 8 6 [70; 40]%Z /\
+  check_C20 [20; 41; 1; 0; 1; 1; 0; 71; 77; 9]%Z = verdict V_MISMATCH 8 6 [71; 41]%Z /\
+  check_C20 [20; 1; 2; 0; 2; 1; 1; 0; 0; 77; 9]%Z = verdict V_MALFORMED 0 (-1) []%Z /\
+  routine_ok 1 [false; false] true true 0 /\ canary_ok 40 [true; true; false] true true 0.
+Proof.
+  repeat (split; [vm_compute; reflexivity|]). split.
+  - split; [reflexivity|]. eexists. split; [reflexivity|]. split; [reflexivity|].
+    split; [intros [|[|[|i]]]; cbn; intro H; discriminate H|].
+    split; [intros _ [|[|[|i]]]; cbn; intro H; discriminate H|].
+    repeat (split; [reflexivity|]). cbn. discriminate.
+  - eexists _, _, _, _. split; [reflexivity|]. split; [reflexivity|].
+    split; [intros x H; now injection H|]. split; [intros x H; now injection H|]. reflexivity.
 Qed.
